@@ -67,6 +67,8 @@ Definition mismatch (c : case_t) : bool :=
        so a redelivered operation (at most once) and an operation that lost to a newer stored one
        (never stale) must not show up, and every accepted one must (completeness);
      - DB.Set / Delete: the one operation the leaseholder created, on the leaseholder's node;
+     - a subscriber that stopped keeping up (SStall: its handler blocks, its buffers overflow) is
+       outside the property from then on; every OTHER subscriber must still be handed everything;
      - recovery writes below the observers (it runs inside kv.Open, before any subscriber can
        exist): nothing is expected from it and nothing may be delivered.
    With IgnoreHostLeaseholder the expected changes are those NOT led by the host (leaseholder of the
@@ -162,6 +164,7 @@ Definition ss_step (po no : obs) (st : sstate) (s : step_t) (rs : list rsub) : s
                                   match ss_subs st !! (n, sb) with Some _ => ss_subs st | None => <[(n, sb) := f]> (ss_subs st) end
                                 else ss_subs st
                | SRestart n => filter (fun kx => negb (kx.1.1 =? n) = true) (ss_subs st)
+               | SStall n sb => delete (n, sb) (ss_subs st)
                | _ => ss_subs st
                end in
   let seen1 := fold_left (fun acc (kf : N * N * bool) =>
